@@ -225,12 +225,8 @@ func (m *Machine) callSSA(caller *frame, fn *ssa.Function, args []Value, env []V
 
 // limitFail reports an unwinding-assertion failure with a model of the path.
 func (m *Machine) limitFail(msg string) {
-	nd, obs, ok := m.model(nil)
-	if !ok {
-		m.inconcl = true
-	}
-	m.failure = &Failure{Kind: "limit", Msg: msg, Nondets: nd, Obs: obs}
-	m.end("limit", msg)
+	m.failWith("limit", msg, nil)
+	m.end("infeasible", "")
 }
 
 // run executes blocks until return; a target panic runs the deferred calls and either
